@@ -406,7 +406,6 @@ def run(chk):
         Kz, Lz, KPLz = sym.arrow(sym.arrow(gpar, "tlwe_params"), "k"), sym.arrow(gpar, "l"), sym.arrow(gpar, "kpl")
         ok = bool(c)
         whyz = ""
-        rows_ix = []
         for cz in c:
             a0 = cz["args"][0]
             b0, o0 = sym.ptr_split(a0)
@@ -416,18 +415,11 @@ def run(chk):
                     cz["args"][2] != sym.addr(sym.fld(sym.idx(sym.sym(gkey), ZERO), "tlwe_key")) or cz["guards"]:
                 ok, whyz = False, "call at line %s: %s" % (cz["line"], summ.show_piece(cz)[:120])
                 break
-            rows_ix.append((cz, sym.trip_counts_nonneg(o0)))
         if ok:
             for kv, lv_ in _it.product((1, 2, 3), repeat=2):
                 env0 = {Kz: kv, Lz: lv_, KPLz: (kv + 1) * lv_}
-                seen = []
                 try:
-                    for cz, ix in rows_ix:
-                        for e2 in concrete.iterate([dict(l_, lo=sym.trip_counts_nonneg(l_["lo"]), hi=sym.trip_counts_nonneg(l_["hi"])) for l_ in cz["loops"]], env0):
-                            x_ = concrete.eval_term(ix, e2)
-                            if x_ is None:
-                                raise concrete.NotEvaluable("row index %s" % sym.show(ix))
-                            seen.append(x_)
+                    seen = [x_[0] for x_ in concrete.visited_tuples(c, lambda cz: (sym.ptr_split(cz["args"][0])[1],), env0)]
                 except concrete.NotEvaluable as e:
                     chk.broken("tGswEncryptZero: %s" % e)
                 if sorted(seen) != list(range((kv + 1) * lv_)):
